@@ -63,6 +63,13 @@ func verifDecoderDecode(d *json.Decoder, v interface{}) error {
 func VerifC02_BridgeList() {
 	n := verifapi.Concrete(verifapi.Choice("records", verifapi.Param("records", 2)+1))
 	h := &bridgeListHolder{}
+	if verifapi.Bool("holder.preloaded") {
+		// the holder already carries an earlier list (NewBrokerContext pre-loads the built-in
+		// default bridge; an operator may reload): loading replaces it
+		old, _ := bridgefingerprint.FingerprintFromHexString(verifFPAbsent)
+		h.bridgeInfo = map[bridgefingerprint.Fingerprint]BridgeInfo{old: {DisplayName: "old", WebSocketAddress: "wss://old.example/", Fingerprint: verifFPAbsent}}
+		verifapi.Cover("bridge list reloaded")
+	}
 	err := h.LoadBridgeInfo(&verifListReader{n: n})
 	anyBad := false
 	for i := 0; i < n && i < verifRecIdx; i++ {
@@ -89,5 +96,5 @@ func VerifC02_BridgeList() {
 	}
 	fpAbsent, _ := bridgefingerprint.FingerprintFromHexString(verifFPAbsent)
 	_, gerr := h.GetBridgeInfo(fpAbsent)
-	verifapi.Assert(gerr != nil, "a fingerprint absent from the list is not known")
+	verifapi.Assert(gerr != nil, "a fingerprint absent from the list is not known (also one that an earlier list contained)")
 }
